@@ -433,6 +433,12 @@ fn check_triple(t: &Triple, ctx: &mut CaseCtx<'_>) -> Result<(), String> {
     if !t.ctx.warmups.is_empty() {
         ctx.label("dirty:warmups");
     }
+    if !t.ctx.neighbours.is_empty() {
+        ctx.label("dirty:neighbour_config");
+    }
+    if boundary_seeds().contains(&t.seed) {
+        ctx.label("seed:boundary");
+    }
     ctx.label(&format!("preset:{}:{}", t.harness, t.preset));
     if p1.first().map(|l| l.starts_with("PANIC")).unwrap_or(false) {
         ctx.label("panicked");
@@ -548,6 +554,7 @@ fn dirty_strategy() -> impl Strategy<Value = dirty::DirtyCtx> {
     )
         .prop_map(|(warmups, held, ambient, probe_after_construct, probe_mid)| dirty::DirtyCtx {
             warmups,
+            neighbours: Vec::new(),
             held,
             ambient,
             probe_after_construct,
@@ -555,23 +562,149 @@ fn dirty_strategy() -> impl Strategy<Value = dirty::DirtyCtx> {
         })
 }
 
+/// Boundary seeds: the values a "0 means unset" / overflow / truncation bug keys on, values whose
+/// sub-seeds (the harnesses derive `seed.wrapping_add(1)`, `seed + pipeline_size`, this check's
+/// drivers `seed ^ constant`) hit 0, and the 32-bit / sign boundaries.
+fn boundary_seeds() -> Vec<u64> {
+    let mut v: Vec<u64> = vec![
+        0,
+        1,
+        2,
+        u64::MAX,
+        u64::MAX - 1,
+        i64::MAX as u64,
+        i64::MAX as u64 + 1,
+        (1 << 32) - 1,
+        1 << 32,
+        (1 << 32) + 1,
+        (1 << 31) - 1,
+        1 << 31,
+    ];
+    // seed + size == 0 for the pipeline sizes PipelineSimulator adds to the seed
+    for size in [1u64, 2, 4, 8, 16, 32, 64] {
+        v.push(0u64.wrapping_sub(size));
+    }
+    // the drivers' own xor constants (seed ^ c == 0) and their neighbours
+    for c in [0x5EED_C20C_20C2_0C20u64, 0x9A27_1710, 0xC0_11EC, 0x919E, 0x5CE2_A210, 0x0B1E_C7, 0x9e37] {
+        v.push(c);
+        v.push(c ^ 1);
+    }
+    v
+}
+
+fn seed_strategy() -> impl Strategy<Value = u64> {
+    let b = boundary_seeds();
+    prop_oneof![
+        3 => 0u64..1000,
+        2 => any::<u64>(),
+        3 => any::<u16>().prop_map(move |i| b[(i as usize * b.len()) >> 16]),
+        1 => Just(42u64),
+        1 => Just(12345u64),
+    ]
+}
+
+fn redis_dst_preset(kd: u8, keys: u8, skew: u8, nodes: u8, faults: u8) -> String {
+    const KEYS: [u64; 4] = [10, 50, 100, 1000];
+    const SKEW: [&str; 6] = ["0.5", "0.8", "1", "1.2", "1.5", "2"];
+    const FAULTS: [&str; 3] = ["moderate", "calm", "chaos"];
+    format!(
+        "kd={},keys={},skew={},nodes={},faults={}",
+        if kd % 2 == 0 { "zipf" } else { "uniform" },
+        KEYS[keys as usize % 4],
+        SKEW[skew as usize % 6],
+        3 + nodes % 4,
+        FAULTS[faults as usize % 3]
+    )
+}
+
+/// A configuration of the same harness that differs from (seed, preset, n) in exactly one field.
+fn neighbour(hname: &'static str, seed: u64, preset: &str, n: u32, field: u8, pick: u16) -> dirty::Warm {
+    let d = def(hname).expect("harness");
+    let slow = matches!(hname, "streaming" | "compaction");
+    let cap = if slow { 60 } else { 400 };
+    let mut w = dirty::Warm {
+        harness: hname.to_string(),
+        seed,
+        preset: preset.to_string(),
+        n: n.min(cap),
+    };
+    match field % 3 {
+        0 => {
+            let b = boundary_seeds();
+            w.seed = match pick % 4 {
+                0 => seed ^ 1,
+                1 => seed.wrapping_add(1),
+                2 => seed.wrapping_sub(1),
+                _ => b[(pick as usize / 4) % b.len()],
+            };
+            if w.seed == seed {
+                w.seed = seed ^ 2;
+            }
+        }
+        1 => {
+            if preset.contains('=') {
+                // exactly one parameter changes
+                let mut parts: Vec<String> = preset.split(',').map(|x| x.to_string()).collect();
+                let which = (pick as usize) % parts.len();
+                let (k, v) = parts[which].split_once('=').map(|(a, b)| (a.to_string(), b.to_string())).unwrap_or_default();
+                let alt = |options: &[&str]| -> String {
+                    let cur = options.iter().position(|o| *o == v).unwrap_or(0);
+                    options[(cur + 1 + (pick as usize / 8) % (options.len() - 1)) % options.len()].to_string()
+                };
+                let nv = match k.as_str() {
+                    "kd" => alt(&["zipf", "uniform"]),
+                    "keys" => alt(&["10", "50", "100", "1000"]),
+                    "skew" => alt(&["0.5", "0.8", "1", "1.2", "1.5", "2"]),
+                    "nodes" => alt(&["3", "4", "5", "6"]),
+                    _ => alt(&["moderate", "calm", "chaos"]),
+                };
+                parts[which] = format!("{}={}", k, nv);
+                w.preset = parts.join(",");
+            } else if d.presets.len() > 1 {
+                let cur = d.presets.iter().position(|p| *p == preset).unwrap_or(0);
+                w.preset = d.presets[(cur + 1 + pick as usize % (d.presets.len() - 1)) % d.presets.len()].to_string();
+            } else {
+                w.seed = seed ^ 1;
+            }
+        }
+        _ => {
+            w.n = if pick % 2 == 0 { n / 2 + 1 } else { n + 13 }.min(cap);
+            if w.n == n {
+                w.n = n.saturating_sub(7).max(1);
+            }
+        }
+    }
+    w
+}
+
 fn triple_strategy(hname: &'static str, thorough: bool) -> impl Strategy<Value = Triple> {
     let d = def(hname).expect("harness");
     let presets = d.presets;
     let (lo, hi) = (d.n.0, if thorough { d.n_thorough } else { d.n.1 });
     (
-        prop_oneof![3 => 0u64..1000, 2 => any::<u64>(), 1 => Just(42u64), 1 => Just(12345u64)],
+        seed_strategy(),
         any::<u16>(),
         // below the non-trivial threshold only rarely
         prop_oneof![1 => 1u32..lo, 9 => lo..=hi],
         dirty_strategy(),
+        // generated configuration (harnesses whose API takes more than a preset constructor)
+        proptest::option::weighted(0.6, (any::<u8>(), any::<u8>(), any::<u8>(), any::<u8>(), any::<u8>())),
+        // neighbouring configurations of the same harness run before the dirty run
+        proptest::collection::vec((0u8..3, any::<u16>()), 0..=3),
     )
-        .prop_map(move |(seed, pi, n, ctx)| Triple {
-            harness: hname.to_string(),
-            seed,
-            preset: presets[(pi as usize * presets.len()) >> 16].to_string(),
-            n,
-            ctx,
+        .prop_map(move |(seed, pi, n, mut ctx, params, nb)| {
+            let preset = match (hname, params) {
+                ("redis_dst", Some((a, b, c, d, e))) => redis_dst_preset(a, b, c, d, e),
+                _ => presets[(pi as usize * presets.len()) >> 16].to_string(),
+            };
+            ctx.neighbours = nb.iter().map(|(f, p)| neighbour(hname, seed, &preset, n, *f, *p)).collect();
+            Triple {
+                harness: hname.to_string(),
+                seed,
+                preset,
+                n,
+                ctx,
+            }
         })
 }
 
